@@ -222,6 +222,11 @@ class Gen2:
         if inloop and r < 0.14:
             self.facts["brk"] += 1
             return [p + rng.choice(["break", "continue"])]
+        if r < 0.004:
+            # statements that parse but that the expander refuses (match on a flow, activate of an action, await of an event):
+            # the loader must reject such a program - every time it is asked
+            self.facts["refused"] = self.facts.get("refused", 0) + 1
+            return [p + rng.choice(["match " + self.fl(), "activate TestAction(n=%d)" % self.uniq(), "await " + self.ev()])]
         if r < 0.26:
             return [p + "match " + self.ev()]
         if r < 0.40:
@@ -853,6 +858,34 @@ def _init_v2(flows, rails_config=None):
     return st, _W["contract_evals"] - before, used
 
 
+def _retry_init_on_same_configs(flows, obs):
+    """what RuntimeV2_x does across requests: the same FlowConfig objects, a new State, initialize_state again (twice more)"""
+    L, sm, A = _W["L"], _W["sm"], _W["A"]
+    fc = L["mkcfg"](flows)
+    out = []
+    for attempt in range(3):
+        st = L["fl"].State(flow_states=[], flow_configs=fc, rails_config=None)
+        try:
+            if "main" in fc:
+                sm.initialize_state(st)
+            else:
+                st.flow_states = dict()
+                for c in fc.values():
+                    sm.initialize_flow(st, c)
+        except Exception:
+            obs["gen2_rejected_again"] = obs.get("gen2_rejected_again", 0) + 1
+            continue
+        obs["gen2_accepted_on_retry"] = 1
+        for fid, cfg in st.flow_configs.items():
+            V, _S = scan_v2_flow(A, cfg)
+            for m_, d_ in V:
+                out.append(("accepted-on-retry-after-rejection:" + m_, fid, d_))
+        if not out:
+            out.append(("accepted-on-retry-after-rejection", "-", "attempt %d succeeded where attempt 1 raised" % (attempt + 1)))
+        break
+    return out
+
+
 def _judge_v2_state(st, evals, obs):
     """Direct scan over every flow config + cross-check with what the contract saw.
     Returns (violations, flows, jumpish elements, flows the contract did not judge identically)."""
@@ -1067,6 +1100,12 @@ def _run_gen2(case):
         st, evals, _ = _init_v2(flows)
     except Exception as e:
         obs["gen2_loader_reject_init"] = 1
+        # the runtime creates its states lazily from ONE set of flow configs: asked again (the next request) it must refuse again -
+        # or hand out compiled flows that are closed
+        again = _retry_init_on_same_configs(flows, obs)
+        if again:
+            return dict(base, verdict="violated", observed=obs, mechs=sorted({m_ for m_, _f, _d in again}), n_violations=len(again),
+                        witness={"program": src, "first_attempt": "%s: %s" % (type(e).__name__, str(e)[:200]), "violations": again[:8]})
         return dict(base, verdict="inconclusive", reason="loader-reject", detail="init %s: %s" % (type(e).__name__, str(e)[:300]),
                     observed=obs, nontrivial=False)
     violations, nflows, jumpish, unseen = _judge_v2_state(st, evals, obs)
